@@ -23,8 +23,9 @@ def from_constant(value: ConstantValue) -> object:
     # so hand it a new tuple, not the one which belongs to the code data
     if isinstance(value, tuple):
         return tuple(map(from_constant, value))
-    # The same happens to the tuples inside of a frozenset constant
-    if isinstance(value, frozenset):
+    # The same happens to the tuples inside of a frozenset constant. A frozenset
+    # without tuples is kept as it is, a copy can iterate in another order
+    if isinstance(value, frozenset) and any(isinstance(v, tuple) for v in value):
         return frozenset(map(from_constant, value))
     return value
 
